@@ -210,8 +210,8 @@ class MultiTwoQubitBlockFactory(IOperationBulkDrawComponentFactory[TCircuitTwoQu
                         continue
 
                     bounded_offset: float = (2 * (operation.element_index / (operation.group_size - 1)) - 1.0)  # [-1, +1]
-                    duration_scaling: float = 0.5 * operation.operation.duration  # tau / 2
-                    offset_scalar: float = bounded_offset * duration_scaling * scalar
+                    # Fraction of the operation's own duration: OffsetTransformConstructor multiplies by the duration itself
+                    offset_scalar: float = bounded_offset * 0.5 * scalar  # [-1/4, +1/4] of tau
                     offset_transform_constructor: ITransformConstructor = OffsetTransformConstructor(
                         default_transform=transform_constructor,
                         pivot_offset_scalar_x=offset_scalar,
